@@ -184,6 +184,22 @@ def run(shard, ctx):
         ctx.sample({"history": [ALPHABET[first][0], ALPHABET[3][0], ALPHABET[17][0]]})
     elif kind == "random":
         rng = ctx.rng("random")
+        if shard["name"].endswith("-0"):
+            # every top note x every bare name, octave 0 included: where the bare name is voiced
+            pool = NAMES16 + ["B##", "Cbb", "A###", "Dbbb", "E#", "Fb"]
+            for tn in pool:
+                for to in (0, 1, 4):
+                    for bare in pool:
+                        nc, m = NoteContainer(), SetModel()
+                        nc.add_note(tn, to), m.add(tn, to)
+                        hist = [("add", tn, to), ("add", bare)]
+                        st, r = ctx.call(nc.add_note, bare)
+                        m.add(bare)
+                        if st != "ok":
+                            ctx.check("history: every add/remove form is accepted", False, {"history": hist}, None, repr(r), mechanism="raise:add")
+                        else:
+                            check_content(ctx, nc, m, hist)
+                        ctx.case(("voicing", tn, to, bare))
         for h in range(shard["n"]):
             nc, m = NoteContainer(), SetModel()
             hist = []
